@@ -2,6 +2,8 @@ import Comdex.Lemmas.LiqOrders
 import Comdex.Lemmas.LiqAmmBridge
 import Comdex.Lemmas.LiqMoves
 import Comdex.Lemmas.LiqFarm
+import Comdex.Lemmas.LiqSupply
+import Comdex.Lemmas.LiqFee
 import Comdex.Props.C05
 /-!
 # C04 — Liquidity custody: escrows, reserves and farmed pool coins are fully backed
@@ -29,7 +31,9 @@ Property clause → theorem
   particular not by matching; the dust collector and the pool reserves move by exactly the named amounts
       → `coins_conserved` (every history, every coin denom: Σ over all real accounts constant), `bank_keys_unique`,
         `batch_conserves_coins`, `batch_dust_exact`, `batch_reserve_exact`
-        (swap-fee collector and orderers: `C07.finish_moves_exactly`, `C07.fill_pays_demand_coins`)
+        `batch_fee_collector_exact` (the swap-fee collector of each pair: exactly the fee on the executed portions of the
+        orders that ended in the batch; every operation: `C07.fee_collector_exact`)
+        (orderers: `C07.finish_moves_exactly`, `C07.fill_pays_demand_coins`, `C07.ended_order_accounts`)
 * "the liquidity module account holds exactly the pool coins recorded as farmed (queued plus active) for every pool"
       → `farm_custody_exact`
       (holds for EVERY pool of every history, enabled or disabled — farm / unfarm do not look at the flag, the code never
@@ -41,7 +45,15 @@ Property clause → theorem
   `withdraw_refunded_if_pool_disabled`
 * "every pool whose pool-coin supply has reached zero is marked disabled" → `zero_supply_disabled`
 * "pool-coin supply changes only by pool creation and by deposits and withdrawals executed against that pool"
-      → `poolcoin_supply_only_by_pool_ops`
+      → `poolcoin_supply_only_by_pool_ops` (which operations can change it at all),
+        `poolcoin_supply_exact` (EVERY operation except begin-block pruning and pool creation: Δ supply of pool (a, pl) = pool
+          coins minted by the deposit requests of THAT pool that newly succeeded − pool coins burnt by the withdrawal requests
+          of THAT pool that newly succeeded — batches of later blocks, `MsgDepositAndFarm` / `MsgUnfarmAndWithdraw`, failing
+          requests, basic and ranged pools), `poolcoin_supply_fixed_without_executed_request`,
+        `poolcoin_supply_create_and_prune` (creation adds ONE pool with positive supply and leaves the others; pruning
+          touches no pool)
+* (round 5) histories may contain the store migration 1 → 2 (`Op.migrate`, see `C07.migration_preserves_orders`): it moves no
+  coin and keeps every amount, `Inv` is preserved (`migrate_inv`), so every theorem here covers such histories
 -/
 namespace Comdex.C04
 open Comdex.LiqLedger
@@ -171,6 +183,15 @@ theorem batch_reserve_exact {cfg : Cfg} {s s' : State} {p : Pair} {m : MatchIn} 
     s.bal (.reserve a pl) d + sumOver (fun f : PoolFlow => if a = p.app ∧ f.pool = pl ∧ sideOut p f.buy = d then f.recv else 0) m.pools :=
   applyMatch_reserve h a pl d
 
+/-- **Swap-fee collector in a batch**: executing the batch of an app (`ExecuteRequests`: expiry pre-pass, match results,
+expiry / too-small sweep, deposit and withdrawal requests) moves the swap-fee collector of every pair by exactly the fee on the
+executed portions of the orders of that pair that ended in the batch — the last account of the batch ledger
+(`batch_conserves_coins`, `batch_dust_exact`, `batch_reserve_exact`, orderers: `C07.finish_moves_exactly`). -/
+theorem batch_fee_collector_exact {cfg : Cfg} {s s' : State} {app : Nat} {ms : List MatchIn} {dins : List DepIn} {wins : List WdrIn}
+    (h : endBlock cfg s app ms dins wins = some s') (a p : Nat) (d : Denom) :
+    s'.bal (.swapFee a p) d + fwdSum cfg a p d s.orders = s.bal (.swapFee a p) d + fwdSum cfg a p d s'.orders :=
+  fe_endBlock h
+
 /-- **Farmed pool coins, exact.** -/
 theorem farm_custody_exact {cfg : Cfg} (hc : CfgOk cfg) (funds : List (Nat × Nat × Nat)) (ops : List Op) (a p : Nat) :
     (after cfg funds ops).bal .module (.pool a p) = farmSum a p (after cfg funds ops).farmers :=
@@ -238,6 +259,48 @@ theorem poolcoin_supply_only_by_pool_ops (cfg : Cfg) (s : State) (op : Op) (a pl
     simp only [hs, Option.getD_some] at h
     exact Classical.byContradiction fun hn => h (supply_frame a pl hs hn)
 
+/-- **Supply changes by exactly the executed requests of THAT pool** — every operation that neither prunes request records
+(`BeginBlocker`) nor creates a pool: the recorded supply of pool `(a, pl)` after the step, plus what the succeeded withdrawal
+requests of that pool now on record burnt, plus what the succeeded deposit requests of that pool on record BEFORE had minted
+= the same with before / after exchanged; i.e. `Δ supply = Δ minted − Δ burnt`, where minted / burnt are read off the request
+records of pool `(a, pl)` only (`mintedSum`, `burnedSum`).  Covers pending requests executed by the batch of any later block,
+requests executed inside `MsgDepositAndFarm` / `MsgUnfarmAndWithdraw`, failing requests (refunded; they mint / burn nothing and
+are deleted at the next begin-block), basic and ranged pools, and the store migration. -/
+theorem poolcoin_supply_exact (cfg : Cfg) (s : State) (op : Op) (a pl : Nat) (hop : prunesOrCreates op = false) :
+    supply (stepT cfg s op) a pl + mintedSum a pl s.deps + burnedSum a pl (stepT cfg s op).wdrs =
+      supply s a pl + mintedSum a pl (stepT cfg s op).deps + burnedSum a pl s.wdrs := by
+  unfold stepT
+  cases hs : step cfg s op with
+  | none => simp
+  | some s' => simp only [Option.getD_some]; exact step_supplyEq a pl hop hs
+
+/-- if no request of pool `(a, pl)` newly succeeds in a step, its supply does not move -/
+theorem poolcoin_supply_fixed_without_executed_request (cfg : Cfg) (s : State) (op : Op) (a pl : Nat)
+    (hop : prunesOrCreates op = false)
+    (hm : mintedSum a pl (stepT cfg s op).deps = mintedSum a pl s.deps) (hb : burnedSum a pl (stepT cfg s op).wdrs = burnedSum a pl s.wdrs) :
+    supply (stepT cfg s op) a pl = supply s a pl := by
+  have := poolcoin_supply_exact cfg s op a pl hop
+  omega
+
+/-- **Pool creation adds one pool record with a positive supply and touches no other pool** (basic and ranged); the
+begin-block pruning deletes request / order records only. -/
+theorem poolcoin_supply_create_and_prune {cfg : Cfg} (hc : CfgOk cfg) (s : State) :
+    (∀ app creator pair ranged dx dy ammPs ext s', step cfg s (.createPool app creator pair ranged dx dy ammPs ext) = some s' →
+      ∃ q, s'.pools = s.pools ++ [q] ∧ q.app = app ∧ q.ranged = ranged ∧ 0 < q.ps ∧ s'.deps = s.deps ∧ s'.wdrs = s.wdrs ∧
+        ∀ a pl, (s.pool? a pl).isSome → supply s' a pl = supply s a pl) ∧
+    (∀ app, (stepT cfg s (.beginBlock app)).pools = s.pools) := by
+  refine ⟨?_, fun app => rfl⟩
+  intro app creator pair ranged dx dy ammPs ext s' h
+  obtain ⟨ac, q, hac, hp, h1, h2, h3, hrq⟩ := createPool_pools h
+  refine ⟨q, hp, h1, h2, ?_, hrq.1, hrq.2, ?_⟩
+  · rw [h3]
+    have := hc ac (app?_mem hac)
+    omega
+  · intro a pl hsome
+    cases hq : s.pool? a pl with
+    | none => rw [hq] at hsome; cases hsome
+    | some q0 => exact supply_append_existing s [q] a pl q0 hq s' hp
+
 /-! ### The escrow can fall short when a match result does not conserve coins (defect D2 of the matcher) -/
 
 def cfg1 : Cfg :=
@@ -252,16 +315,16 @@ sellers paid 15000 -/
 def opsD2 : List Op :=
   [ .block 1 100,
     .createPair 1 0 (.coin 1) (.coin 2) true,
-    .order 1 1 1 .limit false 20000 1000000000000000000 1000000000000000000 15000 3600 true,
-    .order 1 2 1 .limit false 20000 1000000000000000000 1000000000000000000 15000 3600 true,
-    .order 1 3 1 .limit true 20000 1000000000000000000 1000000000000000000 16000 3600 true,
+    .order 1 1 1 .limit false (.coin 1) (.coin 2) 20000 1000000000000000000 15000 3600,
+    .order 1 2 1 .limit false (.coin 1) (.coin 2) 20000 1000000000000000000 15000 3600,
+    .order 1 3 1 .limit true (.coin 2) (.coin 1) 20000 1000000000000000000 16000 3600,
     .endBlock 1 [{ pair := 1, fills := [{ id := 1, buy := false, paid := 15000, recv := 15000, matched := 15000 },
                                         { id := 3, buy := true, paid := 16000, recv := 16000, matched := 16000 }],
                    pools := [], dust := 1000 }] [] [] ]
 
 theorem pair_escrow_ge_orders_counterexample :
     (after cfg1 funds1 opsD2).bal (.pairEscrow 1 1) (.coin 1) < remSum 1 1 (.coin 1) (after cfg1 funds1 opsD2).orders := by
-  decide
+  decide +kernel
 
 /-- the D2 book of C05 (two sells 15000 @ 0.0001, one buy 16000 @ 0.0002, last price 0.00009) run through the modelled
 matcher: the ledger input built from the run has no quote deficit and a base deficit of exactly the 1000 dropped coins -/
@@ -285,8 +348,8 @@ def opsOK : List Op :=
   [ .block 1 100,
     .createPair 1 0 (.coin 1) (.coin 2) true,
     .createPool 1 3 1 false 500000 0 0 true,          -- rejected: base amount below the minimum
-    .order 1 1 1 .limit false 20000 1000000000000000000 1000000000000000000 15000 3600 true,
-    .order 1 3 1 .limit true 20000 1000000000000000000 1000000000000000000 10000 3600 true,
+    .order 1 1 1 .limit false (.coin 1) (.coin 2) 20000 1000000000000000000 15000 3600,
+    .order 1 3 1 .limit true (.coin 2) (.coin 1) 20000 1000000000000000000 10000 3600,
     .endBlock 1 [{ pair := 1, fills := [{ id := 1, buy := false, paid := 10000, recv := 10000, matched := 10000 },
                                         { id := 2, buy := true, paid := 10000, recv := 10000, matched := 10000 }],
                    pools := [], dust := 0 }] [] [],
@@ -297,9 +360,9 @@ theorem opsOK_conserving : ∀ op ∈ opsOK, OpConserving op := by
   simp only [opsOK, List.mem_cons, List.not_mem_nil, or_false] at hop
   rcases hop with rfl | rfl | rfl | rfl | rfl | rfl | rfl
   all_goals first | trivial | (intro m hm; simp at hm; subst hm; decide)
-example : ((after cfg1 funds1 opsOK).orders.map fun o => (o.id, o.remaining, o.status)) = [(1, 5000, .partially)] := by decide
-example : (after cfg1 funds1 opsOK).bal (.pairEscrow 1 1) (.coin 1) = 5045 := by decide
-example : remSum 1 1 (.coin 1) (after cfg1 funds1 opsOK).orders = 5000 := by decide
+example : ((after cfg1 funds1 opsOK).orders.map fun o => (o.id, o.remaining, o.status)) = [(1, 5000, .partially)] := by decide +kernel
+example : (after cfg1 funds1 opsOK).bal (.pairEscrow 1 1) (.coin 1) = 5045 := by decide +kernel
+example : remSum 1 1 (.coin 1) (after cfg1 funds1 opsOK).orders = 5000 := by decide +kernel
 example : touchesSupply 1 1 (.createPool 1 0 1 false 5 5 5 true) := rfl
 /-- queue of three ages (oldest first) 50@t1, 30@t2, 20@t3: unfarming 35 takes 20 from the newest and 15 from the middle -/
 example : keepNonzero (deduct [(50, 1), (30, 2), (20, 3)] 35).1 = [(50, 1), (15, 2)] ∧ (deduct [(50, 1), (30, 2), (20, 3)] 35).2 = 0 ∧
@@ -307,6 +370,29 @@ example : keepNonzero (deduct [(50, 1), (30, 2), (20, 3)] 35).1 = [(50, 1), (15,
 /-- maturation at time 100 with duration 60: entries created at 10 and 40 are mature, the one at 70 is not -/
 example : activate 60 100 { app := 1, pool := 1, owner := 0, queued := [(5, 10), (7, 40), (9, 70)], active := 2 } =
     { app := 1, pool := 1, owner := 0, queued := [(9, 70)], active := 14 } := by decide
-example : coinTotal 1 (after cfg1 funds1 opsOK).bank = 2000000 ∧ coinTotal 1 (genesis funds1).bank = 2000000 := by decide
+/-- a pool, a deposit request pending over the block boundary and executed by the next batch, a second one that fails (mints
+nothing), a withdrawal: supply 1 000 000 → 1 500 000 → 1 300 000, and exactly the succeeded requests account for it -/
+def fundsS : List (Nat × Nat × Nat) := [(1, 0, 100), (1, 1, 5000000), (1, 2, 5000000), (2, 1, 1000000), (2, 2, 1000000)]
+def opsS : List Op :=
+  [ .block 1 100,
+    .createPair 1 1 (.coin 1) (.coin 2) true,
+    .createPool 1 1 1 false 1000000 1000000 1000000 true,
+    .deposit 1 2 1 500000 500000 true,
+    .deposit 1 2 1 1 1 true,
+    .endBlock 1 [] [{ pool := 1, id := 1, ax := 500000, ay := 500000, pc := 500000 }] [],
+    .block 2 105, .beginBlock 1,
+    .withdraw 1 1 1 200000 true,
+    .endBlock 1 [] [] [{ pool := 1, id := 1, x := 199000, y := 199000 }] ]
+example : supply (after cfg1 fundsS (opsS.take 3)) 1 1 = 1000000 ∧ supply (after cfg1 fundsS (opsS.take 6)) 1 1 = 1500000 ∧
+    mintedSum 1 1 (after cfg1 fundsS (opsS.take 6)).deps = 500000 ∧
+    ((after cfg1 fundsS (opsS.take 6)).deps.map fun r => (r.id, r.status, r.minted)) = [(1, .succeeded, 500000), (2, .failed, 0)] ∧
+    supply (after cfg1 fundsS opsS) 1 1 = 1300000 ∧ burnedSum 1 1 (after cfg1 fundsS opsS).wdrs = 200000 := by
+  decide +kernel
+example : prunesOrCreates (.endBlock 1 [] [] []) = false := rfl
+/-- the batch of `opsOK` completes the buyer (10 000 quote paid, fee 30) — the collector gets 30 of coin 2 and nothing of coin 1 -/
+example : (after cfg1 funds1 (opsOK.take 6)).bal (.swapFee 1 1) (.coin 2) = 30 ∧
+    fwdSum cfg1 1 1 (.coin 2) (after cfg1 funds1 (opsOK.take 6)).orders = 30 ∧
+    (after cfg1 funds1 (opsOK.take 6)).bal (.swapFee 1 1) (.coin 1) = 0 := by decide +kernel
+example : coinTotal 1 (after cfg1 funds1 opsOK).bank = 2000000 ∧ coinTotal 1 (genesis funds1).bank = 2000000 := by decide +kernel
 
 end Comdex.C04
